@@ -624,6 +624,156 @@ func c08(tier string, args []string) int {
 		r.Sample(map[string]interface{}{"two_rounds_grid": fmt.Sprintf("%dx%d", len(A)+1, len(B)+1), "view": v})
 		lab.Node.Stop()
 	}
+	// ---- (h) raw lines on the file board: whoever can append to the board file can write lines
+	// that Send never writes - a line that leaves fields out, a line that claims another offset
+	// than its position. Such a line is junk like any other: the state after the same lines must
+	// not depend on where a poll ended. For every position of an interleaved two-round log a junk
+	// line is put there, and the log is consumed in one poll, with a poll ending just before the
+	// junk line, and with a poll ending just after it.
+	{
+		v := 0
+		var A, B []storage.Message
+		for _, m := range rec2.Log {
+			if !(m.RecipientAddr == "" || m.RecipientAddr == rec2.W.Nodes[v].Name) {
+				continue
+			}
+			if m.DkgRoundID == roundA {
+				A = append(A, m)
+			} else if m.DkgRoundID == roundB {
+				B = append(B, m)
+			}
+		}
+		// proposal and confirmations of both rounds, alternating, then round A's commits
+		var base []storage.Message
+		for i := 0; i < 3 && i < len(A) && i < len(B); i++ {
+			base = append(base, A[i], B[i])
+		}
+		for i := 3; i < 5 && i < len(A); i++ {
+			base = append(base, A[i])
+		}
+		other := func(id string) string {
+			if id == roundA {
+				return roundB
+			}
+			return roundA
+		}
+		line := func(pos int, m storage.Message) string {
+			m.ID, m.Offset = fmt.Sprintf("line-%d", pos), uint64(pos)
+			return string(world.MustJSON(m)) + "\n"
+		}
+		type rawLog struct {
+			name  string
+			lines []string
+			junk  int
+		}
+		var variants []rawLog
+		for p := 1; p <= len(base); p++ {
+			for _, kind := range []string{"fields-left-out", "claims-next-offset", "claims-far-offset"} {
+				var ls []string
+				for i := 0; i < p; i++ {
+					ls = append(ls, line(i, base[i]))
+				}
+				switch kind {
+				case "fields-left-out":
+					ls = append(ls, fmt.Sprintf(`{"id":"junk","offset":%d,"dkg_round_id":%q}`+"\n", p, other(base[p-1].DkgRoundID)))
+				case "claims-next-offset":
+					ls = append(ls, fmt.Sprintf(`{"id":"junk","offset":%d,"dkg_round_id":%q,"event":"junk","data":"anVuaw==","signature":"anVuaw==","sender":"nobody","recipient":""}`+"\n", p+1, base[p-1].DkgRoundID))
+				case "claims-far-offset":
+					ls = append(ls, fmt.Sprintf(`{"id":"junk","offset":%d,"dkg_round_id":%q,"event":"junk","data":"anVuaw==","signature":"anVuaw==","sender":"nobody","recipient":""}`+"\n", 1<<40, base[p-1].DkgRoundID))
+				}
+				for i := p; i < len(base); i++ {
+					ls = append(ls, line(i+1, base[i]))
+				}
+				variants = append(variants, rawLog{fmt.Sprintf("%s@%d", kind, p), ls, p})
+			}
+		}
+		consume := func(lines []string, cut int) (world.Snapshot, error) {
+			dir := world.NewDir("c08raw")
+			defer os.RemoveAll(dir)
+			ms := world.NewMemState(world.Topic)
+			if err := os.WriteFile(dir+"/board.log", nil, 0o644); err != nil {
+				return nil, err
+			}
+			fsBoard, err := file_storage.NewFileStorage(dir+"/board.log", dir+"/board.lock")
+			if err != nil {
+				return nil, err
+			}
+			counted := &countedStorage{Storage: fsBoard}
+			nd, err := world.NewNodeOverStorage(rec2.W.Nodes[v].Name, rec2.W.Nodes[v].KeyPair, ms, counted)
+			if err != nil {
+				return nil, err
+			}
+			defer nd.Stop()
+			appendLines := func(ls []string) error {
+				f, err := os.OpenFile(dir+"/board.log", os.O_APPEND|os.O_WRONLY, 0o644)
+				if err != nil {
+					return err
+				}
+				defer f.Close()
+				_, err = f.WriteString(strings.Join(ls, ""))
+				return err
+			}
+			poll := func() error {
+				before := atomic.LoadInt64(&counted.done)
+				if err := nd.TickPlain(); err != nil {
+					return err
+				}
+				for i := 0; atomic.LoadInt64(&counted.done) < before+3 && i < 50000; i++ {
+					time.Sleep(100 * time.Microsecond)
+				}
+				return nil
+			}
+			if cut > 0 && cut < len(lines) {
+				if err := appendLines(lines[:cut]); err != nil {
+					return nil, err
+				}
+				if err := poll(); err != nil {
+					return nil, err
+				}
+				if err := appendLines(lines[cut:]); err != nil {
+					return nil, err
+				}
+			} else if err := appendLines(lines); err != nil {
+				return nil, err
+			}
+			if err := poll(); err != nil {
+				return nil, err
+			}
+			// a second poll: whatever the first left unread (it must be nothing) gets its chance
+			if err := poll(); err != nil {
+				return nil, err
+			}
+			return ms.Snapshot(), nil
+		}
+		for _, vr := range variants {
+			if r.TimeUp() {
+				break
+			}
+			one, err := consume(vr.lines, 0)
+			if err != nil {
+				r.Infra("raw board %s: %v", vr.name, err)
+			}
+			states++
+			for _, cut := range []int{vr.junk, vr.junk + 1} {
+				if cut >= len(vr.lines) {
+					continue
+				}
+				two, err := consume(vr.lines, cut)
+				if err != nil {
+					r.Infra("raw board %s: %v", vr.name, err)
+				}
+				transitions += len(vr.lines)
+				if publicProjection(one, "") != publicProjection(two, "") {
+					kind := vr.name[:strings.Index(vr.name, "@")]
+					r.Violation("C08/raw-junk-line-makes-state-depend-on-poll-boundary/"+kind,
+						fmt.Sprintf("file board with a junk line (%s) at position %d: a node that read all %d lines in one poll and a node whose first poll ended after %d lines end in different public states", kind, vr.junk, len(vr.lines), cut),
+						map[string]interface{}{"lines": vr.lines, "first_poll_ends_after": cut})
+				}
+			}
+			validated++
+		}
+		r.Sample(map[string]interface{}{"raw_board_variants": len(variants), "base_lines": len(base)})
+	}
 	rec2.W.Close()
 	r.Set("states", states)
 	r.Set("transitions", transitions)
